@@ -32,6 +32,10 @@ CHECKS = {
                 mc_cov=lambda cn: dict(states=cn.get('C20/ref:states', 0) + cn.get('C20/asan:states', 0), transitions=cn.get('C20/ref:transitions', 0) + cn.get('C20/asan:transitions', 0),
                                        traces_validated_against_impl=cn.get('C20/ref:words', 0) + cn.get('C20/asan:words', 0),
                                        explanation='states = abstract typestates {none, h0, h1, both live} per configuration; every word (trace) is executed call by call on the real bridge')),
+    'C09': dict(level='model_checking', runs=[dict(binary='h_thr', check='C09sched', variant='mon'), dict(binary='h_thr', check='C09seq', variant='ref'), dict(binary='h_thr', check='C09tsan', variant='tsan')],
+                percase=120, deadline=dict(quick=200, thorough=1800),
+                mc_cov=lambda cn: dict(states=cn.get('C09sched/mon:scheduling_points', 0), transitions=cn.get('C09sched/mon:scheduling_points', 0), traces_validated_against_impl=cn.get('C09sched/mon:schedules', 0) + cn.get('C09seq/ref:sequences', 0),
+                                       explanation='schedules = complete interleavings executed on the real code under the cooperative scheduler (iterative preemption bounding, depth-first with prefix replay); states/transitions = scheduling points visited over all schedules; sequences = sequential call histories of part 3')),
     'C07': dict(level='fault_enumeration', runs=_e1('C07', 'h_e2'), percase=5, deadline=dict(quick=150, thorough=1500)),
     'C08': dict(level='fault_enumeration', runs=_e1('C08', 'h_e2'), percase=5, deadline=dict(quick=150, thorough=1500)),
 }
@@ -117,3 +121,7 @@ META['C19'] = dict(engine='E3 history explorer', design_ref='5/C19', technique='
 META['C20'] = dict(engine='E3 history explorer', design_ref='5/C20', technique='exhaustive enumeration of all valid operation words of the handle protocol up to a depth, executed on the real Fortran-callable entry point',
     text='For every configuration all words over {factor(h,m), solve(h,nrhs in {1,2},ldb in {n,n+2}), free(h)} on two handles and two matrices up to depth 6 (quick) / 7 (thorough) that respect the protocol and end with everything freed are executed on c_fortran_xgssv_: the caller\'s 1-based arrays are bit-identical after factor; every solve meets the C01 residual bound for its handle\'s matrix and agrees with xgssv on the same data (bitwise equality is recorded); padding rows untouched; results do not depend on what the other handle did; the allocation ledger is empty after the last free.',
     note='The bridge sources are compiled by the private build (enable_fortran is OFF in the tested configuration). d and z in quick, all four types in thorough; ref and ASan builds.')
+
+META['C09'] = dict(engine='E4 schedule explorer', design_ref='5/C09', technique='stateless model checking of the real code: exhaustive preemption-bounded thread interleavings under a cooperative scheduler with a per-access monitor, plus exhaustive sequential call orders and a free-running ThreadSanitizer pass',
+    text='(1) mon build (library compiled with -fsanitize=thread, the TSan runtime replaced by an access monitor): all 45 unordered pairs of 9 thread bodies (dgssvx with equilibration/condition/refinement, zgssvx CONJ, sgssv, cgssv on row storage, hand-made dgstrf+dgstrs+dgscon, orderings + sp_preorder, dgsisx with MC64, the Fortran bridge, sgssvx TRANS on row storage), self pairs included, and 6 triples; every schedule with <= 1 preemption (<= 2 for self pairs in quick, for all pairs in thorough) is executed; scheduling points at every allocation call and at every instrumented access to memory the running thread does not own (writable globals/statics, other threads\' blocks); oracle per schedule: no location touched by two threads with a write, every thread\'s outputs bit-identical to its solo run. (2) all sequences of <= 3 (quick) / <= 4 (thorough) calls in one thread, each call with its own tuning parameters, on 3 heap fill patterns: outputs bit-identical to the same call executed first in a fresh process. (3) the same bodies free-running on 4 threads under the real TSan runtime.',
+    note='<= 3 threads, preemption bound 2, sequential consistency between scheduling points (no weak-memory effects); libc calls made by the library (memset/memcpy/printf) are not instrumented. sp_ienv is process-global by design, so concurrent bodies share one tuning tuple.')
